@@ -249,6 +249,11 @@ def compactStep (cfg : Cfg) (metas : List Meta) : List Meta :=
   | .ok p => applyPlan metas p
   | .error _ => metas
 
+/-- `k` rounds of the loop. -/
+def iterate (cfg : Cfg) : Nat → List Meta → List Meta
+  | 0, metas => metas
+  | k + 1, metas => iterate cfg k (compactStep cfg metas)
+
 /-- Explicit decreasing measure of the loop. -/
 def measure (metas : List Meta) : Nat :=
   metas.length + (metas.filter fun m => decide (m.numTombstones > 0)).length
